@@ -4,6 +4,7 @@ package main
 
 import (
 	"bytes"
+	"go/constant"
 	"math/big"
 	"fmt"
 	"go/ast"
@@ -54,6 +55,8 @@ type Contract struct {
 	checkFrame bool
 	noReturnOK bool
 	readsClock bool
+	iface      bool
+	CallSites  map[string][]*Clause // "<callee text>#<ordinal>" -> requires evaluated in the caller's scope at that call
 	seals, opens bool // the function performs an AEAD seal / open whose ghost trace its ensures clauses describe
 	File       string
 	used       bool
@@ -163,6 +166,9 @@ func parseContractFile(fset *token.FileSet, f *ast.File, pkgPath string) ([]*Con
 			for _, l := range c.Spawns {
 				all = append(all, l...)
 			}
+			for _, l := range c.CallSites {
+				all = append(all, l...)
+			}
 			for _, cl := range all {
 				cl.Text = expand(cl.Text)
 			}
@@ -196,7 +202,7 @@ func parseContractFile(fset *token.FileSet, f *ast.File, pkgPath string) ([]*Con
 			if i := strings.Index(tgt, " "); i >= 0 && !strings.HasPrefix(tgt, "(") {
 				tgt = tgt[:i]
 			}
-			cur = &Contract{Target: normTarget(tgt), Loops: map[string][]*Clause{}, Callbacks: map[string][]*Clause{}, Spawns: map[string][]*Clause{}, File: ln.pos, checkFrame: true}
+			cur = &Contract{Target: normTarget(tgt), Loops: map[string][]*Clause{}, Callbacks: map[string][]*Clause{}, Spawns: map[string][]*Clause{}, CallSites: map[string][]*Clause{}, File: ln.pos, checkFrame: true}
 			cons = append(cons, cur)
 			curL = nil
 			last = nil
@@ -308,6 +314,15 @@ func parseContractFile(fset *token.FileSet, f *ast.File, pkgPath string) ([]*Con
 			c := &Clause{Kind: "go-requires", Ord: parts[0], Text: strings.TrimSpace(parts[2]), Line: ln.pos}
 			last = c
 			cur.Spawns[parts[0]] = append(cur.Spawns[parts[0]], c)
+		case "callsite":
+			// callsite <callee-text> <ordinal> requires <expr>
+			parts := strings.SplitN(rest, " ", 4)
+			if len(parts) != 4 || parts[2] != "requires" {
+				return nil, nil, fmt.Errorf("%s: callsite <callee> <ordinal> requires <expr>", ln.pos)
+			}
+			c := &Clause{Kind: "callsite-requires", Name: parts[0], Ord: parts[1], Text: strings.TrimSpace(parts[3]), Line: ln.pos}
+			last = c
+			cur.CallSites[parts[0]+"#"+parts[1]] = append(cur.CallSites[parts[0]+"#"+parts[1]], c)
 		case "ghostparam":
 			parts := strings.SplitN(rest, " ", 2)
 			if len(parts) != 2 {
@@ -625,6 +640,23 @@ func (vc *VC) findLoop(fi *FuncInfo, ord string) ast.Stmt {
 	return found
 }
 
+func (vc *VC) findCallSite(fi *FuncInfo, callee, ord string) *ast.CallExpr {
+	var found *ast.CallExpr
+	n := 0
+	ast.Inspect(fi.Decl.Body, func(x ast.Node) bool {
+		if ce, ok := x.(*ast.CallExpr); ok {
+			if strings.ReplaceAll(nodeText(vc.fset, ce.Fun), " ", "") == callee {
+				if fmt.Sprint(n) == ord && found == nil {
+					found = ce
+				}
+				n++
+			}
+		}
+		return true
+	})
+	return found
+}
+
 func (vc *VC) findGo(fi *FuncInfo, ord string) *ast.GoStmt {
 	var found *ast.GoStmt
 	n := 0
@@ -655,7 +687,14 @@ func (vc *VC) compileClause(fi *FuncInfo, c *Clause) {
 	}
 	var params []string
 	pos := fi.Decl.Name.Pos()
-	if c.Kind == "go-requires" {
+	if c.Kind == "callsite-requires" {
+		ce := vc.findCallSite(fi, c.Name, c.Ord)
+		if ce == nil {
+			fail("no call %s #%s in %s", c.Name, c.Ord, fi.Short)
+			return
+		}
+		pos = ce.Pos()
+	} else if c.Kind == "go-requires" {
 		gs := vc.findGo(fi, c.Ord)
 		if gs == nil {
 			fail("no go statement with ordinal %s in %s", c.Ord, fi.Short)
@@ -1056,6 +1095,12 @@ func (ex *Exec) evalSpecFunc(name string, call *ast.CallExpr, st *State) []Value
 		}
 		n := mkApp("aead!keylen", sortInt, a)
 		return []Value{{T: types.NewSlice(types.Typ[types.Uint8]), L: map[string]*Term{".ref": mkApp("aead!keyref", sortRef, a), ".off": mkApp("aead!keyoff", sortInt, a), ".len": n, ".cap": mkApp("aead!keycap", sortInt, a)}}}
+	case "calls":
+		tv := ex.info().Types[call.Args[0]]
+		if tv.Value == nil {
+			unsupp("calls(): constant string expected")
+		}
+		return []Value{ex.callsCounter(st, constant.StringVal(tv.Value))}
 	case "iter":
 		if len(ex.rangeIdx) == 0 {
 			unsupp("iter() outside a range loop")
